@@ -892,7 +892,10 @@ class Checker:
         if not stack:
             return None
         inner = stack[-1]
+        only_src = getattr(self, "_only_src", None)
         for i, node in enumerate(stack[:-1]):
+            if only_src is not None and getattr(getattr(node, "token", None), "source", None) != only_src:
+                continue  # a template that was deliberately not analysed (dynamic partial name)
             if not self.has_reported(node, rep, budget):
                 return (_node_name(stack[i - 1]) if i else "<template>") + ".children"
         if want is None:
@@ -923,6 +926,7 @@ class Checker:
         n = {"lookups": 0, "filters": 0, "tags": 0, "globals": 0, "resolves": 0}
         root_src = cs.root_src
         self._rep_key = None  # objects of the previous render are gone: forget what was memoised
+        self._only_src = root_src if root_only else None
 
         def names(src: Any) -> list[str]:
             return cs.names_of.get(src, [])
